@@ -198,7 +198,22 @@ def shards(tier, seed):
             for part in range(2 if tier == "quick" else 1):
                 out.append({"mode": "cross", "sort": srt, "op": op, "part": part, "parts": 2 if tier == "quick" else 1, "full": True})
         out.append({"mode": "unary", "sort": srt})
+        for op in BIN + fc.FP_CMP:
+            out.append({"mode": "symcross", "sort": srt, "op": op})
     return out
+
+
+def _identity_consts(srt):
+    """Constants that algebraic identities are written about: zeros, ones, two, a half, infinities, NaN, extremes."""
+    vals = []
+    for v in (0.0, -0.0, 1.0, -1.0, 2.0, 0.5, float("inf"), float("-inf")):
+        vals.append(fc.float_to_bits(v, srt))
+    mant = fc.SB[srt] - 1
+    inf = ((1 << fc.EB[srt]) - 1) << mant
+    p = fc.pool(srt)
+    sub = min(b for b in p if b > 0)  # smallest subnormal
+    big = max(b for b in p if b < inf)  # largest finite
+    return sorted(set(vals + [sub, big, inf | (1 << (mant - 1)), inf | 1]))
 
 
 def _envs_strategy(t):
@@ -261,6 +276,30 @@ def run_shard(shard, ctx):
         return
     srt = shard["sort"]
     pool = fc.pool(srt)
+    if mode == "symcross":
+        # one operand symbolic, the other an "identity" constant (or the same variable again, or its negation): the shapes an
+        # algebraic rewrite is written for; the symbolic operand then ranges over the whole boundary pool and results are
+        # compared bit for bit (signed zeros!) with the independently built term under every rounding mode
+        op = shard["op"]
+        rms = fc.RMS if op in BIN else (None,)
+        x = ("fvar", "f0_" + srt[0], srt)
+        others = [("fconst", c, srt) for c in _identity_consts(srt)] + [x, ("fneg", x), ("fabs", x)]
+        envs = [{x[1]: v} for v in pool]
+        n = 0
+        for o in others:
+            for a, b in ((x, o), (o, x)):
+                for rm in rms:
+                    if ctx.out_of_time():
+                        return
+                    t = (op, rm, a, b) if rm else (op, a, b)
+                    wrapped = [t] if op in fc.FP_CMP else [t, ("to_ieee", t)]
+                    for tt in wrapped[:1]:
+                        case = {"mode": "symbolic", "tree": tt, "spell": 0, "envs": envs}
+                        f, info = check_symbolic(tt, 0, envs)
+                        n += 1
+                        record(case, run_case(case) if f is not None else [], info, {"tree": fc.pretty(tt)})
+        ctx.extra["enumerated_pool_cases"] = n
+        return
     if mode == "cross":
         op = shard["op"]
         rms = fc.RMS if op in BIN else (None,)
